@@ -113,7 +113,8 @@ CLAIMS = {
             "SignType.tla holds the documented table and the field relations; TLC checks the table's self-consistency, decode-back, the virtual sign's "
             "derivation and the totality/acceptance rules of decoding over all (family, id) pairs and lengths 0..40. The real blocks, dimensions, "
             "decode results and what a real VirtualSign configured with each block stores are recorded and judged by relations in TLC (not by "
-            "equality with the spec's copy of the table), with the supported (family, id) set built from the recorded blocks.",
+            "equality with the spec's copy of the table), with the supported (family, id) set built from the recorded blocks; all values of the last four "
+            "bytes behind fixed prefixes are swept (2^29 per prefix quick, 2^32 thorough).",
             "Trusted: TLC. A consistent change of a type is deliberately not an alarm.",
             "DESIGN.md section 5 C19", TECH_MGV),
     "C12": ("model_checking",
@@ -126,16 +127,20 @@ CLAIMS = {
             "DESIGN.md section 5 C12", TECH_MGV),
     "C13": ("model_checking",
             "VirtualSign.tla is the documented sign-side state machine. TLC checks its invariants and per-step behaviour on the bounded model for both "
-            "flip styles; TLC's state graph (one witness path per distinct state, every alphabet edge) is replayed into a real VirtualSign comparing "
+            "flip styles, and that every model step is a step of the size abstraction SignAbs.tla (refinement as a TLC action property), whose invariants "
+            "Apalache shows inductive for unbounded counters and lengths (thorough tier); TLC's state graph (one witness path per distinct state, every alphabet edge) is replayed into a real VirtualSign comparing "
             "reply and state()/sign_type()/pages() after every step; in the other direction a breadth-first search over the implementation's own "
-            "Hash/Eq state, random walks and directed transfers on real sign sizes are validated event by event by TLC against Step.",
+            "Hash/Eq state (every alphabet message probed at every node and behind every edge that rejoins a known node), random walks and directed "
+            "transfers on real sign sizes are validated event by event by TLC against Step.",
             "Trusted: TLC, the transcription of the documented state machine. Bounds on buffered bytes/pages/counter (model) and chunks per transfer (impl BFS).",
             "DESIGN.md section 5 C13", TECH_MGV),
     "C14": ("model_checking",
             "Bus.tla composes signs; TLC checks AddressedIsolation and UnaddressedOnlyReceiving for every alphabet message in every reachable state of "
-            "an exhaustive 2-sign model (both signs mid-transfer at once is reachable) and on simulated 3-/4-sign behaviours; the model's witness "
+            "an exhaustive 2-sign model (both signs mid-transfer at once is reachable; thorough: also of an exhaustive 3-sign model, 151 221 bus states) "
+            "and on simulated 3-/4-sign behaviours; the model's witness "
             "paths drive a real VirtualSignBus into each model state where the C14 relations are checked against solo clones of the real signs; "
-            "random interleavings on 1..4 real signs are validated by the reference-free TLC monitor Trace_Monitor!Isolation.",
+            "random interleavings on 1..4 real signs, discovery sweeps over all 65 536 addresses and populous buses (48 / 300 signs at random and "
+            "arithmetic-progression addresses) are validated by the reference-free TLC monitor Trace_Monitor!Isolation.",
             "Trusted: TLC. The check is reference-free on purpose: a change of a single sign's behaviour that keeps isolation is C13's finding, not C14's.",
             "DESIGN.md section 5 C14", TECH_MGV),
 }
